@@ -33,23 +33,23 @@ import (
 )
 
 type KvmSem struct {
-	Decided  bool
-	Why      string // when not decided
-	Call     *ast.CallExpr
-	Fn       *ast.FuncDecl
-	RecvVar  types.Object
-	Labels   []string // abbreviations M accepts on the zero state
-	DupOK    bool
-	DupWhy   string
-	StepOK   bool
-	StepWhy  string
+	Decided             bool
+	Why                 string // when not decided
+	Call                *ast.CallExpr
+	Fn                  *ast.FuncDecl
+	RecvVar             types.Object
+	Labels              []string // abbreviations M accepts on the zero state
+	DupOK               bool
+	DupWhy              string
+	StepOK              bool
+	StepWhy             string
 	UnkNonNil, UnkTyped bool
-	UnkWhy   string
-	TailOK   bool
-	TailWhy  string
-	Missing  map[string]bool // mandatory label -> reported when it alone is missing
-	NoPanic  bool
-	PanicWhy string
+	UnkWhy              string
+	TailOK              bool
+	TailWhy             string
+	Missing             map[string]bool // mandatory label -> reported when it alone is missing
+	NoPanic             bool
+	PanicWhy            string
 }
 
 func dAtom(l string) *bform { return bAtom("D:"+l, "1") }
